@@ -13,6 +13,7 @@ import EinoV.Gen.FactsC03
 import EinoV.Expected.C03
 import EinoV.Proofs.C03Engine
 import EinoV.Proofs.C02Confluence
+import EinoV.Proofs.C02CompileWF
 import EinoV.Proofs.C02EagerConfluence
 import EinoV.Model.C03Loop
 import EinoV.Proofs.C03Loop
@@ -604,6 +605,18 @@ theorem dag_outputs_schedule_independent {V : Type} (ops : ValOps V) (hm : Merge
     (hA : (n, o) ∈ histOf r x (runS ops r sA x).trace.reverse)
     (hB : (n, o') ∈ histOf r x (runS ops r sB x).trace.reverse) : o = o' :=
   run_outputs_sched_independent ops hm r wf wf2 wf3 sA sB hfA hfB x n o o' hA hB
+
+open EinoV.Engine EinoV.Engine.DagRun in
+/-- **compiled_graph_result_schedule_independent.** `dag_result_schedule_independent` with its
+    hypotheses discharged (`Proofs/C02CompileWF.lean`): for *every* well-formed acyclic graph
+    definition, a permutation-invariant merge, every input and any two fair completion schedules,
+    two runs of the compiled graph that both return a value return the same value. -/
+theorem compiled_graph_result_schedule_independent {V : Type} (ops : ValOps V) (hm : MergePerm ops)
+    (slack : Nat) (g : GraphDef V) (w : GraphDefWF g) (sA sB : Sched V) (hfA : sA.Fair) (hfB : sB.Fair)
+    (x vA vB : V) (hA : (runS ops (compile slack g) sA x).result = .ok vA)
+    (hB : (runS ops (compile slack g) sB x).result = .ok vB) : vA = vB :=
+  have h := compile_wf slack g w
+  run_result_sched_independent ops hm _ h.1 h.2.1 h.2.2 sA sB hfA hfB x vA vB hA hB
 
 open EinoV.Engine EinoV.Engine.DagRun in
 /-- **dag_wf3_check_sound.** The executable check of `DagWF3` (evaluated by the C02 oracle on every
